@@ -34,7 +34,10 @@ func verifC06PushClose(tag string) {
 	maxPush := verifParam("pushes", 4)
 
 	n := minPush + verifChoice("pushes", maxPush-minPush+1)
-	flushAt := verifChoice("slot500", n+1) // index of the push whose slot is a multiple of 500; n = none
+	flushAt := n // index of the push whose slot is a multiple of 500; n = none
+	if verifParam("slot500", 1) == 1 {
+		flushAt = verifChoice("slot500", n+1)
+	}
 	subsets := 1<<uint(nAddr) - 1
 	sets := make([]int, n)
 	cnt := make([]int, nAddr)
